@@ -227,6 +227,14 @@ func runOne(t *testing.T, prop, tier string, sc Scenario, st *simrt.Stream, log 
 			res.Viol = append(res.Viol, Violation{prop, key, p})
 		}
 	}
+	raceKeys := make([]string, 0, len(sim.Races))
+	for k := range sim.Races {
+		raceKeys = append(raceKeys, k)
+	}
+	sort.Strings(raceKeys)
+	for _, k := range raceKeys {
+		res.Viol = append(res.Viol, Violation{prop, "concurrent-map-access/" + k, sim.Races[k]})
+	}
 	if sim.Deadlock {
 		res.Infra = "harness deadlock: main task never finished; stuck: " + strings.Join(sim.Stuck, ", ")
 	}
@@ -521,6 +529,9 @@ func searchMain(t *testing.T, scs []Scenario) int {
 		}
 		for f, n := range res.Ctx.Probes {
 			wr.Probes[f] += n
+		}
+		if res.Sim.MapOps > 0 {
+			wr.Probes["shared-map-access-watched"] += res.Sim.MapOps
 		}
 		for f, n := range res.Sim.SpawnCnt {
 			wr.Spawns[f] += n
